@@ -5,7 +5,7 @@
   (`wfOk_sound`).
 -/
 import ExoModel.WfTie
-import ExoModel.Lemmas.WfShapes5
+import ExoModel.Lemmas.WfShapes9
 import ExoModel.Lemmas.WfShapesAlpha
 
 namespace Exo.WfTie
@@ -64,6 +64,43 @@ theorem lo_liftFor : LocalOk liftForOutOfIf always :=
 theorem lo_liftIfOut : LocalOk liftIfOutOfLoop (fun _ => liftIfOutOfLoopOk) :=
   fun Γ ss r hr ho hw => liftIfOutOfLoop_local Γ ss r hr ho hw
 
+theorem lo_deletePass : LocalOk deletePassLocal always :=
+  fun Γ ss r hr _ hw => deletePass_local Γ ss r hr hw
+theorem lo_liftAlloc (rel : Path) : LocalOk (liftAlloc rel) (fun Γ => liftAllocOk Γ rel) :=
+  fun Γ ss r hr ho hw => liftAlloc_local rel Γ ss r hr ho hw
+theorem lo_sinkAlloc (x' : Sym) : LocalOk (sinkAlloc x') (fun Γ => sinkAllocOk Γ x') :=
+  fun Γ ss r hr ho hw => sinkAlloc_local x' Γ ss r hr ho hw
+theorem lo_deleteBuffer (b : Bool) : LocalOk (deleteBuffer b) deleteBufferOk :=
+  fun Γ ss r hr ho hw => deleteBuffer_local b Γ ss r hr ho hw
+theorem lo_bindExpr (t : Sym) (e : Expr) (s' : Stmt) :
+    LocalOk (bindExpr t e s') (fun Γ => bindExprOk Γ t e s') :=
+  fun Γ ss r hr ho hw => bindExpr_local t e s' Γ ss r hr ho hw
+theorem lo_splitWrite : LocalOk splitWrite always := fun Γ ss r hr _ hw => splitWrite_local Γ ss r hr hw
+theorem lo_mergeWrites : LocalOk mergeWrites always := fun Γ ss r hr _ hw => mergeWrites_local Γ ss r hr hw
+theorem lo_foldIntoReduce : LocalOk foldIntoReduce always :=
+  fun Γ ss r hr _ hw => foldIntoReduce_local Γ ss r hr hw
+theorem lo_liftConstant : LocalOk liftConstant liftConstantOk :=
+  fun Γ ss r hr ho hw => liftConstant_local Γ ss r hr ho hw
+theorem lo_inlineAssign : LocalOk inlineAssign always :=
+  fun Γ ss r hr _ hw => inlineAssign_local Γ ss r hr hw
+theorem lo_inlineAssignOnly : LocalOk inlineAssignOnly always :=
+  fun Γ ss r hr _ hw => inlineAssignOnly_local Γ ss r hr hw
+theorem lo_rewriteExpr (s' : Stmt) : LocalOk (rewriteExprWith s') (fun Γ => rewriteExprOk Γ s') :=
+  fun Γ ss r hr ho hw => rewriteExpr_local s' Γ ss r hr ho hw
+theorem lo_extract (sub : Proc) (args : List Expr) (n : Nat) :
+    LocalOk (extractBlock sub args n) (fun Γ => extractBlockOk Γ sub args n) :=
+  fun Γ ss r hr ho hw => extractBlock_local sub args n Γ ss r hr ho hw
+
+theorem lo_expandDim (n e : Expr) : LocalOk (expandDim n e) (fun Γ => expandDimOk Γ n e) :=
+  fun Γ ss r hr ho hw => expandDim_local n e Γ ss r hr ho hw
+theorem lo_divideDim (d : Nat) (q : Int) : LocalOk (divideDim d q) (fun _ => divideDimOk) :=
+  fun Γ ss r hr ho hw => divideDim_local d q Γ ss r hr ho hw
+theorem lo_multDim (hi lo : Nat) : LocalOk (multDim hi lo) (fun _ => multDimOk) :=
+  fun Γ ss r hr ho hw => multDim_local hi lo Γ ss r hr ho hw
+theorem lo_resizeDim (d : Nat) (size off : Expr) :
+    LocalOk (resizeDim d size off) (fun Γ => resizeDimOk Γ size off) :=
+  fun Γ ss r hr ho hw => resizeDim_local d size off Γ ss r hr ho hw
+
 theorem shapeDivide_sound (tail : Nat) (path : Path) (k : Nat) (sb sa : List Stmt) (sh : Shape)
     (h : shapeDivide tail path k sb sa = .ok sh) : LocalOk sh.f sh.ok := by
   unfold shapeDivide at h
@@ -88,6 +125,9 @@ theorem shapeOf_sound (name : String) (path : Path) (k : Nat) (flag : Bool)
     (before after : List Stmt) (sh : Shape)
     (h : shapeOf name path k flag before after = .ok sh) : LocalOk sh.f sh.ok := by
   unfold shapeOf at h
+  by_cases h0 : name = "delete_pass"
+  · rw [if_pos h0] at h; cases h; exact lo_deletePass
+  rw [if_neg h0] at h; clear h0
   split at h
   · cases h
   · split at h
@@ -152,6 +192,69 @@ theorem shapeOf_sound (name : String) (path : Path) (k : Nat) (flag : Bool)
       by_cases h1 : name = "mult_loops"
       · rw [if_pos h1] at h
         split at h <;> first | (cases h; exact lo_mult _) | cases h
+      rw [if_neg h1] at h; clear h1
+      by_cases h1 : name = "lift_alloc"
+      · rw [if_pos h1] at h
+        split at h <;> first | (cases h; exact lo_liftAlloc _) | cases h
+      rw [if_neg h1] at h; clear h1
+      by_cases h1 : name = "sink_alloc"
+      · rw [if_pos h1] at h
+        repeat' (split at h)
+        all_goals first | (cases h; exact lo_sinkAlloc _) | cases h
+      rw [if_neg h1] at h; clear h1
+      by_cases h1 : name = "delete_buffer"
+      · rw [if_pos h1] at h
+        split at h <;> first | (cases h; exact lo_deleteBuffer _) | cases h
+      rw [if_neg h1] at h; clear h1
+      by_cases h1 : name = "bind_expr"
+      · rw [if_pos h1] at h
+        split at h <;> first | (cases h; exact lo_bindExpr _ _ _) | cases h
+      rw [if_neg h1] at h; clear h1
+      by_cases h1 : name = "split_write"
+      · rw [if_pos h1] at h
+        cases h; exact lo_splitWrite
+      rw [if_neg h1] at h; clear h1
+      by_cases h1 : name = "merge_writes"
+      · rw [if_pos h1] at h
+        cases h; exact lo_mergeWrites
+      rw [if_neg h1] at h; clear h1
+      by_cases h1 : name = "fold_into_reduce"
+      · rw [if_pos h1] at h
+        cases h; exact lo_foldIntoReduce
+      rw [if_neg h1] at h; clear h1
+      by_cases h1 : name = "lift_reduce_constant"
+      · rw [if_pos h1] at h
+        cases h; exact lo_liftConstant
+      rw [if_neg h1] at h; clear h1
+      by_cases h1 : name = "inline_assign"
+      · rw [if_pos h1] at h
+        split at h <;> first | (cases h; exact lo_inlineAssign) | (cases h; exact lo_inlineAssignOnly)
+      rw [if_neg h1] at h; clear h1
+      by_cases h1 : name = "rewrite_expr"
+      · rw [if_pos h1] at h
+        split at h <;> first | (cases h; exact lo_rewriteExpr _) | cases h
+      rw [if_neg h1] at h; clear h1
+      by_cases h1 : name = "extract_subproc"
+      · rw [if_pos h1] at h
+        split at h <;> first | (cases h; exact lo_extract _ _ _) | cases h
+      rw [if_neg h1] at h; clear h1
+      by_cases h1 : name = "expand_dim"
+      · rw [if_pos h1] at h
+        split at h <;> first | (cases h; exact lo_expandDim _ _) | cases h
+      rw [if_neg h1] at h; clear h1
+      by_cases h1 : name = "divide_dim"
+      · rw [if_pos h1] at h
+        repeat' (split at h)
+        all_goals first | (cases h; exact lo_divideDim _ _) | cases h
+      rw [if_neg h1] at h; clear h1
+      by_cases h1 : name = "mult_dim"
+      · rw [if_pos h1] at h
+        cases h; exact lo_multDim _ _
+      rw [if_neg h1] at h; clear h1
+      by_cases h1 : name = "resize_dim"
+      · rw [if_pos h1] at h
+        repeat' (split at h)
+        all_goals first | (cases h; exact lo_resizeDim _ _ _) | cases h
       rw [if_neg h1] at h; clear h1
       cases h
 
